@@ -86,6 +86,10 @@ def _record(job):
         path = os.path.join(d0, "db.csv")
         tmpdir = os.path.join(d0, "tmp")
         os.mkdir(tmpdir)
+        if opts.get("symlink"):
+            os.mkdir(os.path.join(d0, "real"))        # the database path is a symbolic link to a file elsewhere
+            open(os.path.join(d0, "real", "data.csv"), "w").close()
+            os.symlink(os.path.join(d0, "real", "data.csv"), path)
     want_io = bool(opts.get("io")) and kind == "csv"
     nostore = bool(opts.get("nostore"))
     mode = opts.get("mode")
@@ -131,6 +135,9 @@ def _record(job):
                     ev = {"a": a, "exc": exc, "res": res, "store": [], "valid": d.valid(), "nostore": 1,
                           "ix": {"n": 0, "q": [], "live": [], "fresh": []}}
                     ev["valid"] = 0        # no index observation without contents
+                    if rec is not None and a["op"] in ("insert", "insert_multiple"):
+                        # no contents projection here, but the I/O calls of the insert are still observable
+                        ev["io"] = io_obs(d, rec, before, a, tmpdir, os.path.dirname(path), tmp_before, lite=True)
                     if a["op"] == "reopen" and not exc:
                         data = open(path, "rb").read()
                         ev["io"] = {"snaps": [], "file": d.decode_bytes(data), "reopened": d.reopened_contents(),
@@ -267,6 +274,8 @@ def adapt_op(a, store):
         return a
     a = dict(a)
     r = a.pop("adapt")
+    if a.get("negfield") == 2:
+        return a                 # keep the generated shape (negation buried under another negation)
     pts = [p for p in store if p["t"] >= 0]
     if not pts:
         return a
@@ -286,7 +295,7 @@ def adapt_op(a, store):
         q = {"k": "not", "a": q}
     elif (r // 50) % 4 == 1 and "q" in a:
         q = {"k": "and", "a": q, "b": a["q"]} if (r // 200) % 2 else {"k": "or", "a": q, "b": a["q"]}
-    if a.get("negfield") and "q" in a and a["q"]["k"] == "and":
+    if a.get("negfield") == 1 and "q" in a and a["q"]["k"] == "and":
         nf = a["q"]["b"] if a["q"]["b"]["k"] == "not" else a["q"]["a"]
         q = {"k": "and", "a": q, "b": nf} if (r // 3) % 2 else {"k": "and", "a": nf, "b": q}
     a["q"] = q
@@ -294,10 +303,10 @@ def adapt_op(a, store):
 
 
 def _leftovers(tmpdir, dbdir):
-    return sorted(os.listdir(tmpdir)) + sorted(f for f in os.listdir(dbdir) if f not in ("db.csv", "tmp"))
+    return sorted(os.listdir(tmpdir)) + sorted(f for f in os.listdir(dbdir) if f not in ("db.csv", "tmp", "real"))
 
 
-def io_obs(d, rec, before, a, tmpdir, dbdir, tmp_before):
+def io_obs(d, rec, before, a, tmpdir, dbdir, tmp_before, lite=False):
     """Summarise the I/O calls of one API call for the trace specification."""
     was = rec.enabled
     rec.enabled = False
@@ -322,6 +331,9 @@ def io_obs(d, rec, before, a, tmpdir, dbdir, tmp_before):
                               "atend": atend})
         after = rec.db_bytes()
         left = [f for f in _leftovers(tmpdir, dbdir) if f not in tmp_before]
+        if lite:
+            return {"snaps": [], "same": 1 if after == before else 0, "tmp": len(left), "calls": calls, "ncalls": len(rec.events),
+                    "snap_calls": [], "counted": []}
         return {"snaps": snaps, "file": d.decode_bytes(after or b""), "reopened": d.reopened_contents(),
                 "same": 1 if after == before else 0, "tmp": len(left), "calls": calls, "ncalls": len(rec.events),
                 "snap_calls": snap_calls,
